@@ -357,17 +357,8 @@ Fixpoint close_of (stop_at_else : bool) (depth : nat) (l : list (nat * fop)) : o
       | _ => close_of stop_at_else depth l'
       end
   end.
-(* the next else / end token in the flat stream (what an un-keyed "resolve at the next else or end" would pick, D15) *)
-Fixpoint next_else_end (l : list (nat * fop)) : option nat :=
-  match l with
-  | [] => None
-  | (j, FElse) :: _ | (j, FEnd) :: _ => Some j
-  | _ :: l' => next_else_end l'
-  end.
 Definition exit_pos (body : list fop) (i : nat) : option nat :=
   close_of (match nth i body FEnd with FIf _ => true | _ => false end) 0 (skipn (S i) (index_from 0 body)).
-Definition opt_nat_eqb (a b : option nat) : bool :=
-  match a, b with Some x, Some y => Nat.eqb x y | None, None => true | _, _ => false end.
 Definition desugar_entry (body : list fop) (rem : list nat) (e : nat * mode * list fop) : list (nat * mode * list fop) :=
   let '(i, m, ops) := e in
   if mem_nat i rem then [] else
@@ -393,15 +384,11 @@ Definition domain21 (c : lcase) : bool :=
                      (C18/C19/C20: it must fire "at no other time") *)
                   (mem_nat i rem && negb (existsb (fun e' => Nat.eqb (fst (fst e')) i && mode_eqb (snd (fst e')) MBlockAlt) (c_plan c))
                    && accepts (nth i (c_body c) FEnd) m)
-                  (* outside: block entry / exit probes keep their place; the shape of D15 (an `if` exit probe with a
-                     nested construct in the then-arm) and semantic-after are left to C16-C19 *)
+                  (* outside: block entry / exit probes keep their place (an `if` exit probe before the if's own else /
+                     end, whatever the then-arm contains); semantic-after is left to C16-C20 *)
                   || (negb (mem_nat i rem) && is_block_style (nth i (c_body c) FEnd)
                       && match m with
-                         | MBlockEntry => true
-                         | MBlockExit => match nth i (c_body c) FEnd with
-                                         | FIf _ => opt_nat_eqb (exit_pos (c_body c) i) (next_else_end (skipn (S i) (index_from 0 (c_body c))))
-                                         | _ => true
-                                         end
+                         | MBlockEntry | MBlockExit => true
                          | _ => false
                          end)
                 end) (c_plan c).
